@@ -77,7 +77,7 @@ func (e *Exec) Input(name, kind string, t types.Type) *Term {
 	v := e.S.Var(name, so)
 	e.inputBy[name] = v
 	e.Inputs = append(e.Inputs, Input{Name: name, Term: v, Kind: kind})
-	if so.K == KInt {
+	if so.K == KInt && (kind == "int" || kind == "byte") {
 		lo, hi := intRange(t)
 		e.Axioms = append(e.Axioms, e.S.And(e.S.Le(e.S.BigInt(lo), v), e.S.Le(v, e.S.BigInt(hi))))
 	}
@@ -831,4 +831,20 @@ func (e *Exec) symSplit(st *State, sv, sepv Val, where string) Val {
 	}
 	parts = append(parts, e.mkStr(cur))
 	return e.mkSlice(st, types.Typ[types.String], parts)
+}
+
+// ZeroResults returns the zero value(s) of fn's results (for "does nothing" stubs).
+func (e *Exec) ZeroResults(fn *ssa.Function) Val {
+	res := fn.Signature.Results()
+	switch res.Len() {
+	case 0:
+		return nil
+	case 1:
+		return e.zeroVal(res.At(0).Type())
+	}
+	tv := make(TupleV, res.Len())
+	for i := range tv {
+		tv[i] = e.zeroVal(res.At(i).Type())
+	}
+	return tv
 }
